@@ -5,6 +5,8 @@ package main
 
 import (
 	"fmt"
+	"go/types"
+	"sort"
 	"strings"
 
 	"golang.org/x/tools/go/ssa"
@@ -190,7 +192,10 @@ func reachesFn(fn interface{ String() string }, target string, depth int) bool {
 }
 
 // ruleAllFiles: every file that uses the API is rewritten, whatever else is processed in the same invocation.
-func (r *rwRT) ruleAllFiles() {
+// strict: the decision must be the type-based test imports.Uses(f, coPkg.Types) (C11: every import form).
+// Otherwise (C15) any predicate of the file alone is admissible: a call outside package rewriter whose
+// arguments are derived only from the file, the co package and constants.
+func (r *rwRT) ruleAllFiles(strict bool) {
 	c := r.c
 	c.min("RW.ALLFILES", 2)
 	fn := r.method("rewriter", "rewriteAllFiles")
@@ -217,11 +222,35 @@ func (r *rwRT) ruleAllFiles() {
 		c.und("RW.ALLFILES", "per-file decision", pos, "rewriteAllFiles does not visit files through VisitAllFiles")
 		return
 	}
+	guards := map[string]bool{}
 	for _, uses := range []bool{true, false} {
 		uses := uses
 		in.OnCall = wrapOnCall(in.OnCall, func(cc *CallCtx) []Answer {
-			if cc.Fn != nil && cc.Fn.Name() == "Uses" {
+			// the type-based test "file f refers to an object of package co" (every import form: dot, default
+			// name, renamed); a syntactic test on import names is not this oracle and stays unknown
+			// (imports.Imports is equivalent on type-correct input: Go rejects an unused import)
+			if cc.Fn != nil && (cc.Fn.Name() == "Uses" || cc.Fn.Name() == "Imports") && cc.Fn.Pkg != nil && strings.HasSuffix(cc.Fn.Pkg.Pkg.Path(), "imports") &&
+				len(cc.Args) == 2 && derivedFrom(argLabel(cc.Args[1]), "coPkg") {
+				guards[fnPkgPath(cc.Fn)+"."+cc.Fn.Name()] = true
 				return []Answer{{Ret: []AV{mkBool(uses)}, NoEvent: true}}
+			}
+			if !strict && cc.Fn != nil && !inRw(cc.Fn) && cc.Fn.Signature.Results().Len() == 1 && len(cc.Args) > 0 {
+				if b, ok := cc.Fn.Signature.Results().At(0).Type().Underlying().(*types.Basic); ok && b.Info()&types.IsBoolean != 0 {
+					fileOnly := true
+					for _, a := range cc.Args {
+						names := map[string]bool{}
+						symNames(cc.St, a, names, map[int]bool{})
+						for n := range names {
+							if !derivedFrom(n, "f") && !derivedFrom(n, "coPkg") {
+								fileOnly = false
+							}
+						}
+					}
+					if fileOnly {
+						guards[fnPkgPath(cc.Fn)+"."+cc.Fn.Name()] = true
+						return []Answer{{Ret: []AV{mkBool(uses)}, NoEvent: true}}
+					}
+				}
 			}
 			return nil
 		})
@@ -247,9 +276,45 @@ func (r *rwRT) ruleAllFiles() {
 			}
 		}
 		if uses {
-			c.check(skipped == 0 && rewritten > 0, "RW.ALLFILES", "file using the API", pos, "is rewritten on every path: the decision depends on the file alone", "a file that uses the API is skipped on some path — the decision depends on something other than the file itself (other files or packages of the invocation): "+example)
+			c.check(skipped == 0 && rewritten > 0, "RW.ALLFILES", "file using the API", pos, "is rewritten on every path: the decision is the type-based API-use test on the file alone", "a file that uses the API is skipped on some path — the decision depends on something other than whether the file refers to objects of package co (other files or packages of the invocation, or the spelling of its import): "+example)
 		} else {
 			c.check(rewritten == 0, "RW.ALLFILES", "file not using the API", pos, "is left alone", "a file that does not use the API is rewritten")
 		}
+	}
+	// A file belonging to two package variants (p and p [p.test] share one *ast.File when tests are loaded,
+	// which GoGen always does) is presented to the callback twice. The second visit must be a no-op, or the
+	// bytes written for p/x_co.go depend on whether an unrelated p/y_co_test.go exists. Frozen table of
+	// what the rewrite does to each predicate (source: github.com/goghcrow/go-imports import.go, x/tools astutil):
+	//   imports.Uses, astutil.UsesImport  - "some identifier refers to package co": false once the file is rewritten
+	//   imports.Imports/ImportsAs/ImportSpec, astutil imports tests - "the import declaration is present": the
+	//   rewriter never deletes it (imports are cleaned by the optimiser, later), so it stays true
+	if strict {
+		return
+	}
+	var gs []string
+	for g := range guards {
+		gs = append(gs, g)
+	}
+	sort.Strings(gs)
+	falsified, kept, unknown := 0, "", ""
+	for _, g := range gs {
+		switch {
+		case strings.HasSuffix(g, "imports.Uses"), strings.HasSuffix(g, "astutil.UsesImport"):
+			falsified++
+		case strings.Contains(g, ".Imports"), strings.Contains(g, ".ImportSpec"):
+			kept = g
+		default:
+			unknown = g
+		}
+	}
+	switch {
+	case falsified > 0:
+		c.ok("RW.ALLFILES", "file visited twice", pos, "the guard of rewriteFile ("+strings.Join(gs, ", ")+") is a use-test, false for a file that has been rewritten: a file shared by two package variants is rewritten once")
+	case kept != "":
+		c.bad("RW.ALLFILES", "file visited twice", pos, "the guard of rewriteFile ("+kept+") tests the import declaration, which rewriting does not remove: a file shared by the package variants p and p [p.test] is rewritten and written twice, so its bytes depend on the presence of unrelated test files")
+	case unknown != "":
+		c.und("RW.ALLFILES", "file visited twice", pos, "cannot tell whether the guard "+unknown+" is false for an already rewritten file")
+	default:
+		c.und("RW.ALLFILES", "file visited twice", pos, "no guard recognised in front of rewriteFile")
 	}
 }
